@@ -1,33 +1,38 @@
-(* Soundness of the optimizer model for the flags of value.New(). *)
-From P2 Require Import Base.Prelude Sem.Num Sem.Syntax Sem.Ops Sem.Lib Sem.Ref Sem.Gen Sem.Sim Sem.Opt
-  Sem.OptRel Sem.OptOpsProofs Sem.OptSound Sem.OptFlagsProofs.
+(* Soundness of the optimizer model for the flags of value.New() (hand-written value_flags and the
+   flags regenerated from the tree), for ALL programs, and the exact form on first-order outcomes. *)
+From P2 Require Import Base.Prelude Sem.Num Sem.Syntax Sem.Ops Sem.Lib Sem.Ref Sem.Gen Sem.Sim Sem.RelProofs Sem.Opt
+  Sem.OptRel Sem.OptRelProofs Sem.OptOpsProofs Sem.OptSound Sem.OptFlagsProofs.
 
-(* the strict optimizer with the flags of value.New(): every rule, including the closure-literal rule
-   and the execution of constant closures and methods at Generate time; no side condition on the
-   flags is left *)
-Theorem optimize_sound_value_strict_lemma : forall known fuel n m env a,
-  side_ok a = true ->
-  (forall x v, lookup x env = Some v -> vrel known v v) ->
-  n <= m ->
-  decided (eval known n env a) ->
-  wrel (vrel known) (eval known n env a) (eval known m env (optimize (strict value_flags) known fuel a)).
+(* ---------- a decidable sufficient condition on the operator table ---------- *)
+
+(* no operator is flagged commutative: nothing regroups *)
+Definition no_commutative (fl : cfgflags) : bool := forallb (fun e => negb (snd (snd e))) (f_ops fl).
+
+Lemma no_commutative_regroup_exact fl : no_commutative fl = true -> regroup_exact_ok fl.
 Proof.
-  intros known fuel.
-  exact (optimize_sound_strict (strict value_flags) known fuel
-           (fold_agrees_all _) (regroup_exact_ok_strict _ regroup_exact_ok_value) eq_refl eq_refl eq_refl).
+  intros H op pure E. exfalso. unfold op_flags in E. unfold no_commutative in H.
+  induction (f_ops fl) as [|[k [p c]] l IH]; simpl in *; [discriminate|].
+  apply andb_true_iff in H. destruct H as [H1 H2].
+  destruct (str_eqb op k); [inversion E; subst; discriminate|auto].
 Qed.
 
-(* the optimizer of the implementation (not strict), on every program on which it does what the strict
-   one does, i.e. never keeps a computed constant that contains a closure (decidable per program) *)
-Theorem optimize_sound_value_lemma : forall known fuel n m env a,
-  optimize value_flags known fuel a = optimize (strict value_flags) known fuel a ->
+(* the obligations on a configuration, decidable: the theorems below hold for every such fl *)
+Definition cfg_ok (fl : cfgflags) : bool := no_commutative fl && f_fieldcheck fl && f_map fl.
+
+(* ---------- all programs ---------- *)
+
+Theorem optimize_sound_cfg : forall fl known fuel,
+  cfg_ok fl = true ->
+  forall n m env a,
   side_ok a = true ->
   (forall x v, lookup x env = Some v -> vrel known v v) ->
   n <= m ->
   decided (eval known n env a) ->
-  wrel (vrel known) (eval known n env a) (eval known m env (optimize value_flags known fuel a)).
+  orel known (eval known n env a) (eval known m env (optimize fl known fuel a)).
 Proof.
-  intros known fuel n m env a E. rewrite E. apply optimize_sound_value_strict_lemma.
+  intros fl known fuel C. unfold cfg_ok in C.
+  apply andb_true_iff in C. destruct C as [C C3]. apply andb_true_iff in C. destruct C as [C1 C2].
+  exact (optimize_sound_all fl known fuel (fold_agrees_all _) (no_commutative_regroup_exact _ C1) C2 C3).
 Qed.
 
 (* first-order arguments are related to themselves *)
@@ -35,13 +40,71 @@ Lemma fo_env_self known env :
   (forall x v, lookup x env = Some v -> fo v = true) -> forall x v, lookup x env = Some v -> vrel known v v.
 Proof. intros H x v L. apply fo_ovrel. eauto. Qed.
 
-Theorem optimize_sound_value_fo_lemma : forall known fuel n m env a,
-  optimize value_flags known fuel a = optimize (strict value_flags) known fuel a ->
+(* ---------- exactness on first-order outcomes ---------- *)
+
+(* a first-order value of the unoptimized program is related only to itself *)
+Lemma ovrel_fo_eq known : forall v1 v2, vrel known v1 v2 -> fo v1 = true -> v1 = v2.
+Proof.
+  induction v1 as [z|f|s|b|l IH|m IH|ps b c s|t] using value_ind2; intros v2 Hv Hf;
+    inversion Hv; subst; auto; cbn [fo] in Hf; try discriminate.
+  - f_equal. clear Hv. match goal with HF : Forall2 _ l _ |- _ => induction HF as [|x y l1 l2 Hxy HF IHF] end; auto.
+    inversion IH; subst. simpl in Hf. apply andb_true_iff in Hf. destruct Hf.
+    f_equal; auto.
+  - f_equal. clear Hv. match goal with HF : Forall2 _ m _ |- _ => induction HF as [|[k x] [k' y] l1 l2 [Hk Hxy] HF IHF] end; auto.
+    inversion IH; subst. simpl in *. apply andb_true_iff in Hf. destruct Hf. subst k'.
+    f_equal; auto. f_equal; auto.
+Qed.
+
+(* an outcome without closures: a first-order value, an error (with its thrown text) or a panic *)
+Definition fo_outcome (r : res value) : bool :=
+  match r with Ok v => fo v | Err _ => true | Panic => true | OOF => false | Unsup => false end.
+
+Lemma orel_fo_exact known r r' : orel known r r' -> fo_outcome r = true -> r' = r.
+Proof.
+  intros H F. unfold OptRel.orel in H. destruct H as [v v' Hv|t| | |]; cbn in F; try discriminate; try reflexivity.
+  f_equal. symmetry. eapply ovrel_fo_eq; eauto.
+Qed.
+
+Lemma fo_outcome_decided r : fo_outcome r = true -> decided r.
+Proof. destruct r; cbn; intros H; try discriminate H; reflexivity. Qed.
+
+Theorem optimize_sound_cfg_exact : forall fl known fuel,
+  cfg_ok fl = true ->
+  forall n m env a,
   side_ok a = true ->
   (forall x v, lookup x env = Some v -> fo v = true) ->
   n <= m ->
-  decided (eval known n env a) ->
-  wrel (vrel known) (eval known n env a) (eval known m env (optimize value_flags known fuel a)).
+  fo_outcome (eval known n env a) = true ->
+  eval known m env (optimize fl known fuel a) = eval known n env a.
 Proof.
-  intros known fuel n m env a E C He. apply optimize_sound_value_lemma; auto. apply fo_env_self; auto.
+  intros fl known fuel C n m env a S He L F.
+  eapply orel_fo_exact; [|exact F].
+  apply optimize_sound_cfg; auto; [apply fo_env_self; auto|apply fo_outcome_decided; auto].
 Qed.
+
+(* ---------- the flags of value.New() ---------- *)
+
+Theorem optimize_sound_value_all_lemma : forall known fuel n m env a,
+  side_ok a = true ->
+  (forall x v, lookup x env = Some v -> vrel known v v) ->
+  n <= m ->
+  decided (eval known n env a) ->
+  orel known (eval known n env a) (eval known m env (optimize value_flags known fuel a)).
+Proof. intros known fuel. exact (optimize_sound_cfg value_flags known fuel eq_refl). Qed.
+
+Theorem optimize_sound_value_exact_lemma : forall known fuel n m env a,
+  side_ok a = true ->
+  (forall x v, lookup x env = Some v -> fo v = true) ->
+  n <= m ->
+  fo_outcome (eval known n env a) = true ->
+  eval known m env (optimize value_flags known fuel a) = eval known n env a.
+Proof. intros known fuel. exact (optimize_sound_cfg_exact value_flags known fuel eq_refl). Qed.
+
+(* the strict optimizer (kept: it is an instance) *)
+Theorem optimize_sound_value_strict_lemma : forall known fuel n m env a,
+  side_ok a = true ->
+  (forall x v, lookup x env = Some v -> vrel known v v) ->
+  n <= m ->
+  decided (eval known n env a) ->
+  orel known (eval known n env a) (eval known m env (optimize (strict value_flags) known fuel a)).
+Proof. intros known fuel. exact (optimize_sound_cfg (strict value_flags) known fuel eq_refl). Qed.
